@@ -132,6 +132,15 @@ CHECKS.update({
    design_ref="DESIGN.md §3 C13"),
 })
 
+CHECKS.update({
+ "C07": dict(
+   category="exploration",
+   text="The real udp_pipe::DuplexPipe over the real direct-forwarder multiplexer against real loopback UDP servers in real time (T in {300,400} ms): seeded histories of 12-28 operations over 5-6 flows (two clients sharing a destination, one client with two destinations, a silent peer, a port-53 flow): client datagram, burst, unsolicited peer datagram, waits of T/4, T/2, 2T+300 ms, datagrams to a destination that cannot be connected (EACCES) and to a closed port (ECONNREFUSED), DNS query. Every datagram has a unique id: the monitor checks where each arrived, the labels of what came back, that nothing is lost or duplicated, that the multiplexer survives per-flow faults and ends with the client stream, that the outbound_udp_sockets gauge (and, in a serial phase, the process's UDP sockets from /proc) returns to the number of live flows after 2T+250 ms of idleness and after a DNS answer. 51 (quick) / 1230 (thorough) histories, 16-wide.",
+   note="Trusted: loopback UDP delivery; timing bands (expiry only asserted after 2T+250 ms idle, histories whose sleeps overshoot by > 150 ms are inconclusive for expiry verdicts). SOCKS5 UDP path is covered by C15.",
+   technique="runtime monitoring: history checker over uniquely identified datagrams + gauge/fd invariants at quiescent points, with fault injection (unconnectable destination, closed port)",
+   design_ref="DESIGN.md §3 C07"),
+})
+
 NOT_YET = "check not built yet in this session (designed in DESIGN.md §3; harness work in progress)"
 
 def main():
